@@ -462,6 +462,7 @@ func (r *Run) twinCheck(what string) {
 
 // Close releases everything the run opened.
 func (r *Run) Close() {
+	r.closeIters()
 	if r.Twin != nil {
 		r.Twin.Close()
 	}
